@@ -15,8 +15,8 @@ MANIFEST = {
     "text": "Coq theorem lockset_sound (interleaving semantics of any number of threads over Lock/Unlock/RLock/RUnlock/read/"
             "write with mutex and RW-lock state; invariant proof): a program set that passes the executable check `disciplined` "
             "has no reachable state, in ANY schedule, with two threads about to perform conflicting accesses.  On every run a "
-            "Go-AST translator (extractor/, go/packages + go/types) re-extracts from the working tree, for 69 entry points of "
-            "pkg/ipam/floatingip, schedulerplugin, ipam/crd, ipam/api (REST controllers), galaxy+api/cniutil, network/portmapping and policy, every access to "
+            "Go-AST translator (extractor/, go/packages + go/types) re-extracts from the working tree, for 71 entry points of "
+            "pkg/ipam/floatingip, schedulerplugin, ipam/crd, ipam/api (REST controllers), ipam/cloudprovider (gRPC client), galaxy+api/cniutil, network/portmapping and policy, every access to "
             "42 tracked shared locations with the locks syntactically held (calls followed across these packages to depth 9, "
             "closures and deferred calls replayed, thread-local objects tracked until published); coqc evaluates `disciplined "
             "generated` by vm_compute and proves galaxy_race_free := lockset_sound .. generated .. at run time. Objects handed out "
@@ -57,6 +57,9 @@ ASSUMPTIONS = [
     "publication is safe: an immutable-after-publication field is written only while the object is thread-local and the "
     "object becomes shared through a lock-protected table (or before the server starts), which orders the writes before "
     "every later read",
+    "sync.Once is seen as a lock: the function passed to X.once.Do runs holding it in write mode, everything after a Do call on "
+    "the path holds it in read mode (Do returns only after the single execution of the function has completed); a location "
+    "guarded by a Once (grpcCloudProvider.client) is therefore written only inside Do and read only after Do",
     "informer caches: what a Lister/Indexer/Store method returns is the cache's own object (client-go contract); the results of "
     "DeepCopy and of clientset calls are private copies",
     "abstraction: each recorded access becomes the mini-program `acquire held locks; access; release` of the Coq model; "
